@@ -136,6 +136,7 @@ func (p *Program) Verify(fn *ssa.Function, fc *FuncContract, mode Mode, primary,
 		}
 	}
 	e.baseEnv = e.envFor(e.entry)
+	e.baseEnv.curCtr = e.entry.ctr // allocated(x) in requires: x exists when the function is entered
 	for k, v := range e.params {
 		e.baseEnv.vars[k] = v
 	}
@@ -168,6 +169,27 @@ func (p *Program) Verify(fn *ssa.Function, fc *FuncContract, mode Mode, primary,
 				continue
 			}
 			c.assume(s)
+		}
+		// `uses <lemma>`: a lemma of the same contract set, proved separately (in its own mode), is available here
+		// as a fact. (How a bit-level fact proved in bv mode reaches an integer-mode proof.)
+		for _, ln := range fc.UsesLemmas {
+			var found *lemmaRef
+			for _, lr := range p.lemmas {
+				if lr.l.Name == ln {
+					found = lr
+				}
+			}
+			if found == nil {
+				e.errs = append(e.errs, fmt.Sprintf("uses %s: no such lemma", ln))
+				continue
+			}
+			s, err := e.baseEnv.ElabBool(found.l.C.E)
+			if err != nil {
+				e.errs = append(e.errs, fmt.Sprintf("uses %s: %v", ln, err))
+				continue
+			}
+			c.assume(s)
+			c.notes["uses lemma "+ln+" (proved separately)"] = true
 		}
 		for _, fz := range fc.Frozen {
 			func() {
